@@ -2,6 +2,7 @@ package props
 
 import (
 	"fmt"
+	"path/filepath"
 	"strings"
 	"testing"
 
@@ -253,6 +254,24 @@ func carrierCheck(mk func() jd.Diff, targets []string, wantB string, opts string
 	}
 	if rerr != nil {
 		return nil, false, rec.Violated("jd cannot read its own rendering: %v\ntext:\n%s", rerr, text)
+	}
+	// the file entry point reads what the string entry point reads (one text in sixteen)
+	if val.FNV64(text)%16 == 0 {
+		dir, cleanup := caseDir()
+		writeFile(dir, "d.jd", text)
+		var df jd.Diff
+		var ferr error
+		msg, p := jdx.Guard(func() { df, ferr = jd.ReadDiffFile(filepath.Join(dir, "d.jd")) })
+		cleanup()
+		if p {
+			return nil, false, rec.Violated("ReadDiffFile panicked: %s\ntext:\n%s", msg, text)
+		}
+		if ferr != nil {
+			return nil, false, rec.Violated("ReadDiffFile rejects a file holding jd's own rendering: %v\ntext:\n%s", ferr, text)
+		}
+		if df.Render() != d2.Render() {
+			return nil, false, rec.Violated("ReadDiffFile gives another diff than ReadDiffString\nfile:\n%s\nstring:\n%s", df.Render(), d2.Render())
+		}
 	}
 	text2 := d2.Render()
 	if text2 != text {
